@@ -522,6 +522,7 @@ class Cfg:
         self.extra_kinds = []         # declaration kinds to favour
         self.matlab_safe = False      # avoid names that trigger known MATLAB-generator defects (x_set_y)
         self.unique_ns = False        # no two sibling namespaces share a name (no re-opened namespaces)
+        self.mnames = None           # pool of method / function names (default MNAMES)
         self.c02_safe = False        # stay inside the guard of C02_inst_eq_subst_partial (see Props/C02.lean)
         self.__dict__.update(kw)
 
@@ -729,10 +730,10 @@ class Gen:
         if k == 'ctor':
             return Member('ctor', tmpl=mt, name=cname, args=self.gen_args(tps))
         if k == 'method':
-            return Member('method', tmpl=mt, ret=self.gen_ret(tps), name=self.ident(MNAMES), args=self.gen_args(tps),
+            return Member('method', tmpl=mt, ret=self.gen_ret(tps), name=self.ident(self.cfg.mnames or MNAMES), args=self.gen_args(tps),
                           const=rng.random() < 0.5)
         if k == 'static':
-            return Member('static', tmpl=mt, ret=self.gen_ret(tps), name=self.ident(MNAMES), args=self.gen_args(tps))
+            return Member('static', tmpl=mt, ret=self.gen_ret(tps), name=self.ident(self.cfg.mnames or MNAMES), args=self.gen_args(tps))
         if k == 'prop':
             pname = self.ident(ANAMES + MNAMES)
             while self.cfg.matlab_safe and ("_set_" in pname or "_get_" in pname):
@@ -819,7 +820,7 @@ class Gen:
         if k == 'func':
             tmpl = self.gen_tmpl() if rng.random() < self.cfg.p_template else None
             tps = tuple(p.name for p in tmpl) if tmpl else ()
-            fname = self.ident(MNAMES)
+            fname = self.ident(self.cfg.mnames or MNAMES)
             prev = self.scopes[-1]["funcs"]
             if prev and rng.random() < 0.3:
                 fname = rng.choice(prev)      # an overload, not necessarily adjacent to the first declaration
